@@ -6,7 +6,7 @@ ENV_BY_TIER = {"quick": {"NUMBA_DISABLE_JIT": "1"}, "thorough": {}}
 RULE = ("(kernel) msprime tree sequences (2-7 samples, 1-1000 bp, Kingman/Beta/Dirac mergers, historical and internal "
         "samples) x time-vector styles (noise, ties, reversed, 1e6..1e12, 1e-6..1e-12, zero, valid) x eps x "
         "iteration counts; a case is non-trivial when the kernel changes at least one time or k>0; distinct by "
-        "content hash; (pipeline) inside_outside / variational_gamma with DEFAULT constr_iterations on contemporaneous-sample "
+        "content hash; (plumbing) EstimationMethod.get_modified_ts on fabricated means for every method class x given/absent constr_iterations and min_branch_length vs util.constrain_ages with the documented effective parameters; (pipeline) inside_outside / variational_gamma with DEFAULT constr_iterations on contemporaneous-sample "
         "inputs (60% with randomly renumbered nodes) and a min_branch_length chosen relative to the dated branch lengths: "
         "node times must equal the least fixed point of the 'mn' metadata exactly")
 ASSUME = ["tskit edge-table order gives children_first (checked on every generated input by the model's "
@@ -91,7 +91,84 @@ def pipeline_oracle(ctx, rng):
                         {"level": "pipeline", "ts": gen.ts_tables_dict(ts), "method": method, "opts": D.jsonable_opts(kw)})
 
 
+def plumbing_oracle(ctx, rng):
+    """option plumbing: EstimationMethod.get_modified_ts on FABRICATED unconstrained means must constrain them with
+    exactly the documented parameters -- min_branch_length as given (default 1e-8), constr_iterations as given, and when
+    it is not given 0 for contemporaneous samples / 100 when sample ages differ -- i.e. its node times must equal
+    util.constrain_ages(ts, means, eps, k) for that (eps, k); the kernel itself is tied to the model above"""
+    import warnings
+    import numpy as np
+    from vlib import gen
+    import tsdate.core as core
+    import tsdate.util as U
+    from props import _dating as D
+    hist = rng.random() < 0.6
+    ts = D.datable_ts(rng, historical=hist, internal=hist and rng.random() < 0.4, big=rng.random() < 0.2)
+    t, style = gen.random_times(rng, ts, rng.choice(["noise", "ties", "reverse", "valid", "noise"]))
+    samples = list(ts.samples())
+    t[samples] = ts.nodes_time[samples]
+    t = np.where(np.array([u in set(samples) for u in range(ts.num_nodes)]), t, np.maximum(t, 1e-6))
+    kw = {}
+    k_opt = rng.choice([None, 0, 0, 1, 7, 100])
+    if k_opt is not None or rng.random() < 0.3:
+        kw["constr_iterations"] = k_opt
+    e_opt = rng.choice([None, 1e-8, 1e-3, 0.3, 2.0])
+    if e_opt is not None or rng.random() < 0.3:
+        kw["min_branch_length"] = e_opt
+    cls = rng.choice(["VariationalGammaMethod", "InsideOutsideMethod", "MaximizationMethod"])
+    mkw = dict(kw, mutation_rate=0.1)
+    if cls != "VariationalGammaMethod":
+        mkw["population_size"] = 1.0
+    ages = np.unique(ts.nodes_time[samples])
+    k_eff = k_opt if k_opt is not None else (100 if ages.size > 1 else 0)
+    e_eff = e_opt if e_opt is not None else 1e-8
+    desc = {"level": "plumbing", "class": cls, "opts": {k: v for k, v in kw.items()}, "sample_ages": int(ages.size),
+            "style": style, "ts": gen.ts_summary(ts)}
+    replay = {"level": "plumbing", "ts": gen.ts_tables_dict(ts), "class": cls, "opts": kw, "t": [float(x) for x in t]}
+    with warnings.catch_warnings():
+        warnings.simplefilter("ignore")
+        try:
+            m = getattr(core, cls)(ts, **mkw)
+        except Exception as e:  # noqa  (e.g. the discrete methods reject non-contemporaneous samples)
+            ctx.case(dict(desc, outcome=type(e).__name__), nontrivial=False, kind="plumbing/raise")
+            return
+        res = core.Results(t.copy(), np.ones(ts.num_nodes), None, None, 0.0, ts.mutations_node.copy(), None)
+        try:
+            out = m.get_modified_ts(res)
+            got = ("ok", [float(x) for x in out.nodes_time])
+        except Exception as e:  # noqa
+            got = ("raise", type(e).__name__)
+        try:
+            want = ("ok", [float(x) for x in U.constrain_ages(ts, t.copy(), e_eff, k_eff)])
+        except Exception as e:  # noqa
+            want = ("raise", type(e).__name__)
+    if want[0] == "ok":
+        # get_modified_ts also has to build a tree sequence from the times; when tskit rejects them both raise
+        tb = ts.dump_tables()
+        tb.nodes.time = np.array(want[1])
+        try:
+            import tskit
+            tb.mutations.time = np.full(tb.mutations.num_rows, tskit.UNKNOWN_TIME)
+            tb.sort()
+            tb.tree_sequence()
+        except Exception as e:  # noqa
+            want = ("raise", type(e).__name__)
+    changed = want[0] == "ok" and not K.same_floats(want[1], [float(x) for x in t])
+    ctx.case(dict(desc, outcome=got[0], changed=changed), nontrivial=changed, kind="plumbing/" + got[0])
+    if want[0] == "ok" and got[0] == "ok":
+        if not K.same_floats(want[1], got[1]):
+            bad = [u for u in range(len(got[1])) if want[1][u] != got[1][u]][:5]
+            ctx.oracle_fail("options-not-honoured",
+                            "%s(%r).get_modified_ts: node times differ from constrain_ages(means, min_branch_length=%r, iterations=%r) "
+                            "at nodes %r (e.g. node %d: expected %r, got %r)" % (cls, kw, e_eff, k_eff, bad, bad[0], want[1][bad[0]], got[1][bad[0]]), replay)
+    elif want[0] != got[0]:
+        ctx.oracle_fail("options-not-honoured/outcome", "%s(%r).get_modified_ts %s but constrain_ages with (%r, %r) %s"
+                        % (cls, kw, got, e_eff, k_eff, want[0]), replay)
+
+
 def run(ctx, model_ok=True):
+    for _ in range(ctx.n(60, 400)):
+        plumbing_oracle(ctx, ctx.rng)
     n = ctx.n(240, 1500)
     cases = [K.make_case(ctx.rng) for _ in range(n)]
     strict = [s for s in (strict_case(ctx.rng) for _ in range(n // 3)) if s]
